@@ -151,6 +151,13 @@ func caseValTok(v int, form int) string {
 	return fmt.Sprint(v)
 }
 
+func caseValToks(v int, form int) []string {
+	if form == 3 {
+		return []string{fmt.Sprintf("BASE_%d", v), "+", "1"}
+	}
+	return []string{caseValTok(v, form)}
+}
+
 // wrapCtx places the switch statement in one of the contexts of the statement.
 func wrapCtx(ctx int, sw *Stmt, pre, post, in1, in2 *Stmt) (*File, map[string]int) {
 	fixed := map[string]int{}
@@ -219,7 +226,7 @@ func genC03(t *rapid.T) *C03Case {
 		if i == defPos {
 			cs.IsDefault = true
 		} else {
-			cs.Val = []string{caseValTok(vals[i], rapid.IntRange(0, 3).Draw(t, "vform"))}
+			cs.Val = caseValToks(vals[i], rapid.IntRange(0, 4).Draw(t, "vform"))
 		}
 		kind := rapid.SampledFrom([]int{0, 0, 0, 1, 1, 2, 3, 4, 5, 6, 7}).Draw(t, "bodykind")
 		cs.Body = g.body(kind)
@@ -239,7 +246,7 @@ func init() {
 	register("C03", "TestC03_Switch", checkC03, c03Src)
 }
 
-const c03Rule = "one switch of 1-6 cases (distinct decimal/hex/symbolic values, default absent or at any position, bodies: empty, commands, a lone break, break at the end / in the middle / inside a nested if / first, nested if; continue at the end of the last case inside loops) in 8 contexts (only/first/last statement, inside while, do-while, condition-less while, another switch's body, an if arm); for EVERY case value and one value matching nothing a scripted world fixes the var and the assembly run must equal the reference run, optimize off and on; plus exhaustive enumeration of all case lists with <=3 entries (thorough 4, 5 with fewer body kinds). non-trivial = the list has an empty case or a default that is not last AND two values produced different outcomes; distinct by source text"
+const c03Rule = "one switch of 1-6 cases (distinct decimal/hex/symbolic/multi-token values, default absent or at any position, bodies: empty, commands, a lone break, break at the end / in the middle / inside a nested if / first, nested if; continue at the end of the last case inside loops) in 8 contexts (only/first/last statement, inside while, do-while, condition-less while, another switch's body, an if arm); for EVERY case value and one value matching nothing a scripted world fixes the var and the assembly run must equal the reference run, optimize off and on; plus exhaustive enumeration of all case lists with <=3 entries (thorough 4, 5 with fewer body kinds). non-trivial = the list has an empty case or a default that is not last AND two values produced different outcomes; distinct by source text"
 
 func TestC03_Regress(t *testing.T) { runRegress(t, "C03") }
 
